@@ -42,4 +42,8 @@ def jobs(tier):
 
 
 def main(tier):
-    return common.run_space_check("C03", tier, jobs(tier), RULE, ASSUME, budget_s=110 if tier == "quick" else 1500)
+    js = jobs(tier)
+    for j in js:
+        # "binds only when the tasks concerned are scheduled": also the converse direction on every program
+        j["directions"] = "SK"
+    return common.run_space_check("C03", tier, js, RULE, ASSUME, budget_s=110 if tier == "quick" else 1500)
